@@ -863,6 +863,7 @@ def h_step(cfg):
     desc = describe(shape) + (f' none_key=t{shape["none_key"]}' if shape.get('none_key') is not None else '') + ' :: ' + op.desc
     note('desc', desc)
     note('class', zlib.crc32(desc.encode()))
+    note('state', zlib.crc32(describe(shape).encode()))
     pre = snapshot(U)
     raised = None
     try:
